@@ -25,7 +25,9 @@ ASSUME = [
 ]
 
 W = lambda: min(12, int(os.environ.get("VERIF_WORKERS", "12")))
-MC_BASE = {"W": 2, "B": 2, "RBuf": 2, "Fixed": False, "Record": False, "Quotas": {0, 1, 9}, "Mut": "none",
+# Fixed = TRUE is the code as it is now (fix commits 4ba5020, 781835c, cd03d13); Fixed = FALSE is the pinned-tree
+# behaviour, kept only as a negative model for the self-test.
+MC_BASE = {"W": 2, "B": 2, "RBuf": 2, "Fixed": True, "Record": False, "Quotas": {0, 1, 9}, "Mut": "none",
            "Cfgs": "<- CfgsDef", "Sizes": {0, 1, 3, 4}, "MaxOps": 2}
 MC_LINES = ["SPECIFICATION Spec", "INVARIANTS NoKF", "PROPERTIES StepOK", "VIEW View", "CHECK_DEADLOCK FALSE"]
 STRICT_LINES = ["SPECIFICATION Spec", "INVARIANTS NoKF", "PROPERTIES StrictOK", "VIEW View", "CHECK_DEADLOCK FALSE"]
@@ -240,11 +242,10 @@ def mk_violations(rejects, jobs_of, what):
 def check(ctx):
     quick = ctx.quick()
     known = load_known("C04")
-    mc = [run_mc(ctx, "pinned", dict(MC_BASE, MaxOps=3), MC_LINES),
-          run_mc(ctx, "fixed", dict(MC_BASE, MaxOps=3, Fixed=True), STRICT_LINES),
-          run_mc(ctx, "live", dict(MC_BASE, Fixed=True), LIVE_LINES)]
+    mc = [run_mc(ctx, "strict", dict(MC_BASE, MaxOps=3), STRICT_LINES),
+          run_mc(ctx, "live", MC_BASE, LIVE_LINES)]
     if not quick:
-        mc.append(run_mc(ctx, "w3", dict(MC_BASE, W=3, B=1, Sizes={0, 2, 4, 5}, Cfgs="<- CfgsW3", MaxOps=3), MC_LINES))
+        mc.append(run_mc(ctx, "w3", dict(MC_BASE, W=3, B=1, Sizes={0, 2, 4, 5}, Cfgs="<- CfgsW3", MaxOps=3), STRICT_LINES))
     behs, gstats = tlc_generate(ctx, "SubstreamPipeMC.tla", write_cfg(
         ctx, "gen.cfg", dict(MC_BASE, Record=True, MaxOps=2 if quick else 3, Cfgs="<- CfgsDef" if quick else "<- CfgsSmall"), GEN_LINES),
         timeout=1500)
@@ -378,12 +379,12 @@ def selftest(ctx):
         ok &= (r is not None) and (expect is None or r == expect)
     ok &= all(v >= 1 for v in done.values())
     # the defects of the pinned tree are visible in the model without the exemption
-    r = tlc_mc(ctx, "SubstreamPipeMC.tla", write_cfg(ctx, "neg_strict.cfg", MC_BASE, STRICT_LINES), workers=4, expect_violation=True)
+    r = tlc_mc(ctx, "SubstreamPipeMC.tla", write_cfg(ctx, "neg_strict.cfg", dict(MC_BASE, Fixed=False), STRICT_LINES), workers=4, expect_violation=True)
     bad = "StrictOK is violated" in r["out"]
-    log("selftest model of the pinned tree without known-finding exemption -> %s" % ("StrictOK violated (as expected)" if bad else "NOT DETECTED"))
+    log("selftest model of the defective (pre-fix) code -> %s" % ("StrictOK violated (as expected)" if bad else "NOT DETECTED"))
     ok &= bad
     for mut in ("framedearly", "nosizecheck", "droplast"):
-        r = tlc_mc(ctx, "SubstreamPipeMC.tla", write_cfg(ctx, "neg_%s.cfg" % mut, dict(MC_BASE, Mut=mut, Fixed=True), STRICT_LINES),
+        r = tlc_mc(ctx, "SubstreamPipeMC.tla", write_cfg(ctx, "neg_%s.cfg" % mut, dict(MC_BASE, Mut=mut), STRICT_LINES),
                    workers=4, expect_violation=True)
         bad = "is violated" in r["out"] and not r["ok"]
         log("selftest mutant model %s -> %s" % (mut, "property violated (as expected)" if bad else "NOT DETECTED"))
